@@ -1011,6 +1011,25 @@ func init() {
 			g.num("1")
 		}
 	})
+	// memefish also accepts several ALTER SEQUENCE clauses in one statement (in this order); the
+	// documentation shows one clause per statement, so this root goes beyond it
+	ddl("alter_sequence_multi", func(g *G) {
+		g.pk("ALTER", "SEQUENCE")
+		g.path()
+		g.pk("SKIP")
+		g.kw("RANGE")
+		g.num("1")
+		g.p(",")
+		g.num("2")
+		if g.opt() {
+			g.kw("NO")
+			g.pk("SKIP")
+			g.kw("RANGE")
+		}
+		g.pk("RESTART", "COUNTER")
+		g.kw("WITH")
+		g.num("3")
+	})
 	ddl("drop_sequence", func(g *G) { g.pk("DROP", "SEQUENCE"); g.ifExists(); g.path() })
 	ddl("alter_statistics", func(g *G) { g.pk("ALTER", "STATISTICS"); g.id(); g.kw("SET"); g.options() })
 	ddl("analyze", func(g *G) { g.pk("ANALYZE") })
